@@ -104,6 +104,9 @@ static struct ext2_super_block SB;
 static struct ext2_inode INODE;
 
 struct blk1k { unsigned int w[C09_APB]; };
+struct blk12 { unsigned int w[12]; };
+struct blk2k { unsigned int w[2 * C09_APB]; };
+struct blk3k { unsigned int w[3 * C09_APB]; };
 #define CHOICE() (IN.choice[(g_ci++) & 7])
 
 /* ---- disk stubs (ind_block.c) */
@@ -130,9 +133,12 @@ errcode_t ext2fs_write_ind_block(ext2_filsys fs, blk_t blk, void *buf)
 	const unsigned int *w = (const unsigned int *)buf;
 	if (CHOICE() & 1)
 		return EXT2_ET_SHORT_WRITE;
-	if (blk == g_PB0) { g_dv0 = w[g_K0]; g_az0 = c09_all_zero_1k(buf); g_wr0++; }
-	else if (blk == g_PB1) { g_dv1 = w[g_K1]; g_az1 = c09_all_zero_1k(buf); g_wr1++; }
-	else if (blk == g_PB2) { g_dv2 = w[g_K2]; g_az2 = c09_all_zero_1k(buf); g_wr2++; }
+	if (blk == g_PB0 || blk == g_PB1 || blk == g_PB2) {
+		unsigned int az = c09_all_zero_1k(buf);
+		if (blk == g_PB0) { g_dv0 = w[g_K0]; g_az0 = az; g_wr0++; }
+		else if (blk == g_PB1) { g_dv1 = w[g_K1]; g_az1 = az; g_wr1++; }
+		else { g_dv2 = w[g_K2]; g_az2 = az; g_wr2++; }
+	}
 	return 0;
 }
 /* ---- allocator / i_blocks stubs (alloc_stats.c, i_block.c: proved by fileio/block_alloc_stats2, fileio/iblk_sub_blocks) */
